@@ -334,7 +334,7 @@ BOUNDS = {
         ("2xsametime", (2, 0)),
     ],
     "thorough": [
-        ("2x1+fine", (99, 0)),
+        ("2x1+fine", (4, 0)),
         ("2x2+fine", (3, 0)),
         ("3x1+fine", (2, 0)),
         ("2x2", (3, 1)),
@@ -348,9 +348,10 @@ BOUNDS = {
         ("3x2", (2, 0)),
         ("3x2", (1, 1)),
         ("2x3", (2, 1)),
-        ("2xrun", (3, 1)),
-        ("2xrun+fine", (2, 0)),
-        ("2xsametime", (3, 1)),
+        ("2xrun", (2, 1)),
+        ("2xrun", (3, 0)),
+        ("2xsametime", (2, 1)),
+        ("2xsametime", (3, 0)),
     ],
 }
 
